@@ -441,7 +441,7 @@ func runC07(r *Run) {
 		r.check(okAll && has400 && len(phi.Edges) >= 6, "serverErrorHandler:mapping", r.pos(eh[0].Instr), "every branch yields a framework *Error; default is 400: "+strings.Join(codes, ","), "a fasthttp error class is passed on unmapped, or the default is not 400: "+strings.Join(codes, ","))
 	})
 
-	r.rule("R7", "serverErrorHandler classifies by error identity before it looks at the message: every path to the textual `timeout` test has first evaluated every errors.As / errors.Is test (E1)", func() {
+	r.rule("R7", "serverErrorHandler classifies by error identity, never by the message (the message of a parse error quotes the request); where a message test exists, every path to it has first evaluated every errors.As / errors.Is test (E1)", func() {
 		f := r.Fn("", "(*App).serverErrorHandler")
 		var textual []callSite
 		for _, c := range callsMatching(f, false, nameIs("strings.Contains", "strings.HasPrefix", "strings.HasSuffix", "strings.EqualFold")) {
@@ -452,8 +452,11 @@ func runC07(r *Run) {
 				textual = append(textual, c)
 			}
 		}
+		// the message of a fasthttp parse error quotes the request ("… contents: \"GET /timeout HTTP/1.1…\""): whatever is
+		// searched for in it can be put there by the client, which then picks the status of its own malformed request
+		r.check(len(textual) == 0, "serverErrorHandler:typed-before-textual:no-message-test", r.fpos(f), "the error is classified by identity only, its message is not searched",
+			"the status of a server error is decided by searching the error's message: fasthttp quotes the request bytes in its parse errors, so GET /timeout with a malformed header is answered 408 Request Timeout instead of 400")
 		if len(textual) == 0 {
-			r.ok("serverErrorHandler:typed-before-textual", r.fpos(f), "no test on the error text")
 			return
 		}
 		typed := callsMatching(f, false, nameIs("errors.As", "errors.Is"))
